@@ -431,7 +431,7 @@ func main() {
 			if err != nil {
 				// the definition is left out: proofs that depend on it break,
 				// which is what must happen
-				fmt.Printf("LOST %s %s.%s: %v\n", it.Coq, it.Pkg, it.Name, err)
+				fmt.Printf("LOST file=%s %s %s.%s: %v\n", it.File, it.Coq, it.Pkg, it.Name, err)
 				failed = true
 				continue
 			}
